@@ -274,18 +274,21 @@ def _explog(case):
     vdir = refs.unit(case["vdir"])
     # (a) log(exp q) = q, |v| in (0, pi)
     q = np.r_[case["s"], vdir * case["vnorm"]]
-    nq = max(1.0, float(np.linalg.norm(q)))
-    Q = L.Quaternion(q.copy())
-    ok, E = c.lib("exp", Q.exp)
-    if ok:
-        want = math.exp(q[0]) * np.r_[math.cos(case["vnorm"]), math.sin(case["vnorm"]) * vdir]
-        if type(E) is L.UnitQuaternion:
-            want = want / np.linalg.norm(want)
-        c.eq("exp/value", E.vec, want, 1e-6, max(math.exp(q[0]), 1.0) if type(E) is not L.UnitQuaternion else 1.0)
-        if type(E) is not L.UnitQuaternion:
-            ok2, Lg = c.lib("log(exp)", E.log)
+    nq = float(np.linalg.norm(q))
+    for pure in (False, True):
+        qq = q.copy()
+        if pure:
+            qq[0] = 0.0                      # pure quaternion: the exponential is a unit quaternion
+        nqq = float(np.linalg.norm(qq))
+        Q = L.Quaternion(qq.copy())
+        site = "pure/" if pure else ""
+        ok, E = c.lib(site + "exp", Q.exp)
+        if ok:
+            want = math.exp(qq[0]) * np.r_[math.cos(case["vnorm"]), math.sin(case["vnorm"]) * vdir]
+            c.eq(site + "exp/value", E.vec, want, 1e-6, math.exp(qq[0]))
+            ok2, Lg = c.lib(site + "log(exp)", E.log)
             if ok2:
-                c.eq("log(exp q)=q", Lg.vec, q, 1e-6, nq)
+                c.eq(site + "log(exp q)=q", Lg.vec, qq, 1e-6, nqq)
     # (b) exp(log q) = q for non-zero vector part
     mag = case["logmag"]
     ratio = case["ratio"]            # |v| / |q|
